@@ -322,6 +322,9 @@ def _interrupt_main_thread(p):
     p.send_signal(signal.SIGINT)
 
 
+SCALE = [1.0]       # set by main() from the machine's load, see common.load_scale
+
+
 def run_impl(case):
     d = os.path.join(WORK, "run_%d_%d" % (os.getpid(), case["idx"]))
     shutil.rmtree(d, ignore_errors=True)
@@ -347,13 +350,13 @@ def run_impl(case):
             started = {e["ev"][1] for e in evs if e["ev"][0] == "Start"}
             if set(services) <= started and any(e["ev"][0] == "LoaderStart" for e in evs):
                 ready = True
-                time.sleep(case["sigint_after"] + 0.15)      # a quiet period: several polling cycles
+                time.sleep((case["sigint_after"] + 0.15) * SCALE[0])      # a quiet period: several polling cycles
                 sig_t = time.monotonic()
                 with open(evp, "a") as fh:
                     fh.write(json.dumps({"t": sig_t, "tid": 0, "ev": ["Sigint"]}) + "\n")
                 _interrupt_main_thread(p)
                 continue
-        if now - t0 > 8.0:
+        if now - t0 > 8.0 * SCALE[0]:
             timed_out = True
             p.kill()
             break
@@ -590,6 +593,8 @@ def main(tier=None, seed=None, replay=None):
         broken.append({"kind": "correspondence", "detail": logc[-600:]})
 
     n = N_THOROUGH if chk.tier == "thorough" else N_QUICK
+    SCALE[0] = common.load_scale()
+    chk.coverage["time_scale"] = round(SCALE[0], 2)
     cases = gen_cases(chk.rng("cases"), n)
     results = run_cases(cases)
 
